@@ -20,12 +20,15 @@ def kv (ws : List String) (k : String) : Option Nat :=
 
 def b01 (b : Bool) : String := if b then "1" else "0"
 
-/-- what the harness records after every action: the registered pool, open sockets, connections in closed pools -/
+/-- what the harness records after every action: the registered pool, open sockets, connections in closed pools,
+    helper goroutines of setupConn (two per connect inside its handshake: `Hs` reporters R and W) -/
 def showHost (h : Pipe.Host) : String :=
   let cur := match h.cur with
     | none => "-"
     | some p => s!"c{p.conns.length}x{b01 p.closed}f{b01 p.filling}"
-  s!"{cur}:{h.opened}:{h.closedConns}"
+  let inHs := (h.pools.flatMap (·.att)).filter fun a => match a.stage with
+    | .opt => true | .st => true | .au _ => true | _ => false
+  s!"{cur}:{h.opened}:{h.closedConns}:{2 * inHs.length}"
 
 /-- fillers whose connects have all returned stop (the harness waits for `filling` to drop before it goes on) -/
 def autoStop (h : Pipe.Host) : Nat → Pipe.Host
